@@ -170,7 +170,9 @@ class BGP(protocol.Protocol):
 
         # Buffer possibly incomplete data first
         self._receive_buffer += data
-        while self.parse_buffer():
+        # stop as soon as we closed the connection ourselves: messages that
+        # follow in the same TCP segment must not be processed any more
+        while not self.disconnected and self.parse_buffer():
             pass
 
     def parse_buffer(self):
